@@ -74,9 +74,18 @@ def _member(v: dict, d: str, name: str, method: bool) -> list:
     return []
 
 
+SIB = "zapi"
+
+
+def site_of(v: dict) -> str:
+    return v.get("site", "root")
+
+
 def render(v: dict, mpriv: bool) -> dict:
-    """Files of one version: {relative path: text}."""
+    """Files of one version: {relative path: text}. The re-export statements live in pkg/__init__.py
+    (site "root") or in the public sibling module pkg/zapi.py (site "sib", pkg/__init__.py empty)."""
     mod = modname(mpriv)
+    sib = site_of(v) == "sib"
     init = [f"from pkg.{mod} import {n}" for n in IMPORT_ORDER if n in v["imp"]]
     if v["ext"]:
         init.append("from extlib import ext")
@@ -84,12 +93,13 @@ def render(v: dict, mpriv: bool) -> dict:
         init.append(f"from pkg.{mod} import cyc")
     if v["hasRall"]:
         init.append("__all__ = [" + ", ".join(f'"{n}"' for n in RALL_ORDER if n in v["rall"]) + "]")
-    files = {"pkg/__init__.py": "\n".join(init) + "\n"}
+    text = "\n".join(init) + "\n" if init else ""
+    files = {"pkg/__init__.py": "", f"pkg/{SIB}.py": text} if sib else {"pkg/__init__.py": text}
     if v["kind"]["M"] == "absent":
         return files
     m = []
     if v["cyc"]:
-        m.append("from pkg import cyc")
+        m.append(f"from pkg.{SIB} import cyc" if sib else "from pkg import cyc")
     if v["hasMall"]:
         m.append("__all__ = [" + ", ".join(f'"{n}"' for n in MALL_ORDER if n in v["mall"]) + "]")
     for cls, base, members in (("B", "", [("bm", "bm"), ("Bn", "n")]), ("K", "(B)" if v["kbase"] else "", [("km", "km"), ("kp", "_kp"), ("Kn", "n")])):
@@ -127,8 +137,11 @@ def check_compiles(files: dict):
 def expected_members(v: dict) -> dict:
     """Names of the members the loader must find (sanity of the renderer against the model's tree)."""
     present = lambda d: v["kind"][d] != "absent"  # noqa: E731
-    root = [n for n in IMPORT_ORDER if n in v["imp"]] + (["ext"] if v["ext"] else []) + (["cyc"] if v["cyc"] else []) + (["__all__"] if v["hasRall"] else [])
-    out = {"": root}
+    imports = [n for n in IMPORT_ORDER if n in v["imp"]] + (["ext"] if v["ext"] else []) + (["cyc"] if v["cyc"] else []) + (["__all__"] if v["hasRall"] else [])
+    sib = site_of(v) == "sib"
+    out = {"": ([] if sib else imports) + (["M"] if present("M") else []) + ([SIB] if sib else [])}
+    if sib:
+        out[SIB] = imports
     if present("M"):
         names = {"B": "B", "K": "K", "f": "f", "x": "x", "p": "_p", "n": "n"}
         out["M"] = (["cyc"] if v["cyc"] else []) + (["__all__"] if v["hasMall"] else []) + [names[d] for d in ("B", "K", "f", "x", "p", "n") if present(d)]
@@ -146,9 +159,9 @@ def load_version(griffe, root: str, v: dict, mpriv: bool):
     pkg = griffe.load("pkg", search_paths=[root], resolve_aliases=True)
     mod = modname(mpriv)
     for where, names in expected_members(v).items():
-        obj = pkg if not where else pkg[where.replace("M", mod, 1)]
+        obj = pkg if not where else pkg[where.replace("M", mod, 1) if where != SIB else SIB]
         got = list(obj.members)
-        want = names + ([mod] if not where and v["kind"]["M"] != "absent" else [])
+        want = [mod if (not where and n == "M") else n for n in names]
         if got != want:
             die(f"C11: loaded tree differs from the model's tree at pkg.{where}: members {got}, expected {want}\n{json.dumps(files, indent=1)}")
     return pkg
@@ -185,7 +198,7 @@ def real_report(griffe, old_pkg, new_pkg, mpriv: bool, styles) -> tuple:
 # ---- the clauses of the property on the real output --------------------------------------------------------------
 def describe(case: dict) -> str:
     v = case["old"]
-    return (f"pkg/{modname(case['mpriv'])}.py, __all__ root={sorted(v['rall']) if v['hasRall'] else None} mod={sorted(v['mall']) if v['hasMall'] else None}, "
+    return (f"pkg/{modname(case['mpriv'])}.py, re-exports in {'pkg/zapi.py' if site_of(v) == 'sib' else 'pkg/__init__.py'}, __all__ site={sorted(v['rall']) if v['hasRall'] else None} mod={sorted(v['mall']) if v['hasMall'] else None}, "
             f"re-exports {sorted(v['imp'])}{' +dangling' if v['ext'] else ''}{' +cyclic' if v['cyc'] else ''}, K({'B' if v['kbase'] else ''}); edits: "
             + (", ".join(f"{e['op']}({e['id']})" for e in case["log"]) or "none"))
 
@@ -270,9 +283,10 @@ def cli_check(repo: str, case: dict, mode: str) -> dict:
     _git(repo, "add", "-A")
     _git(repo, "commit", "-q", "-m", "old")
     _git(repo, "tag", "v1")
-    modfile = os.path.join(repo, "pkg", modname(mpriv) + ".py")
-    if os.path.exists(modfile):
-        os.remove(modfile)
+    for name in (modname(mpriv), SIB):
+        modfile = os.path.join(repo, "pkg", name + ".py")
+        if os.path.exists(modfile):
+            os.remove(modfile)
     write_files(repo, render(case["new"], mpriv))
     if mode == "cli":
         cmd = [PY, "-m", "griffe", "check", "pkg", "-s", ".", "-a", "v1"]
